@@ -20,18 +20,29 @@ def cases(draw, tier):
     other = posixpath.join(dirs[draw(st.integers(0, 3))], "u")
     src = "s0"
     body = [["dep", 1, [src]], ["out", draw(st.sampled_from(["stdout", "file"]))]]
-    if draw(st.integers(0, 3)) == 0:
+    if draw(st.integers(0, 99)) < 45:
         body.append(["stamp"])
     dofiles = {t + ".do": {"v": 1, "body": body},
                other + ".do": {"v": 1, "body": [["dep", 1, [src]], ["out", "stdout"]]}}
     # a parent that names the target through its own spelling
     par = "p"
     dofiles[par + ".do"] = {"v": 1, "body": [["dep", 1, [t]], ["out", "stdout"]]}
+    # ... and a grand-parent whose script changes its working directory before it asks for the parent:
+    # ( cd <dir> && redo-ifchange <p as seen from there> ) -- the names it passes on are relative to THAT directory
+    cddir = dirs[draw(st.integers(0, 3))]
+    dofiles["pp.do"] = {"v": 1, "body": [["dep", 1, [par], {"cd": cddir}], ["out", "stdout"]]}
     ops = []
     for _ in range(draw(st.integers(2, 6))):
         k = draw(st.integers(0, 99))
         cwd = dirs[draw(st.integers(0, 3))]
-        if k < 70:
+        if k < 12:
+            ops.append(["cdparent", draw(st.sampled_from(["redo", "redo", "ifchange"])), cwd])
+            if draw(st.integers(0, 1)):
+                # ... and again after an edit: with a checksummed target below, the parent is only MAYBE out of date
+                # when the script (standing in another directory) asks for it -> out-of-band settle from there
+                ops.append(["edit", src])
+                ops.append(["cdparent", "redo", dirs[draw(st.integers(0, 3))]])
+        elif k < 70:
             n = draw(st.integers(2, 4))
             styles = [draw(st.integers(0, len(STYLES) - 1)) for _ in range(n)]
             kind = draw(st.sampled_from(["redo", "ifchange"]))
@@ -42,7 +53,7 @@ def cases(draw, tier):
             ops.append(["edit", src])
         else:
             ops.append(["rmtarget", t])
-    proj = {"dirs": dirs, "sources": [src], "dofiles": dofiles, "targets": [t, other, par], "watch": [],
+    proj = {"dirs": dirs, "sources": [src], "dofiles": dofiles, "targets": [t, other, par, "pp"], "watch": [],
             "symlinks": {"ln1": "d1", "e1/ln2": "../d1"}}
     return {"project": proj, "cfg": {"log": draw(st.integers(0, 1)), "keep_going": 0}, "ops": ops}
 
@@ -84,11 +95,23 @@ class Runner(hist.HistoryRunner):
             os.symlink(dest, self.disk.abspath(link))
 
     def apply(self, op):
+        if op[0] == "cdparent":
+            # a forced (or checked) build of the grand-parent: its script calls redo-ifchange from another directory;
+            # after an edit below a checksummed target that call takes the out-of-band path from there
+            self.out.events["c15:redo-ifchange-called-by-a-script-after-cd"] += 1
+            try:
+                return self.do_cmd(op[1], ["pp"], op[2])
+            except hist.Violation as v:
+                if v.prop in ("C09", "C05", "C01", "C02"):
+                    # the only special thing about this command is where the script stood when it named its dependency
+                    raise hist.Violation("C15", "script-after-cd/%s-%s" % (v.prop, v.clause), v.detail,
+                                         dict(v.sig or {}, after_cd=True))
+                raise
         if op[0] != "multi":
             return hist.HistoryRunner.apply(self, op)
         _, kind, jobs, cwd, styles, extra = op
         m, disk = self.m, self.disk
-        t, other, par = m.targets
+        t, other, par = m.targets[:3]
         if not os.path.isdir(os.path.join(disk.root, ".redo")):
             cwd = ""
         sps = [spell(t, cwd, s, disk.root) for s in styles]
